@@ -165,9 +165,11 @@ def check_case(ctx, r):
         if k != which and k != 0:
             continue
         root_a = mk_a()
-        doc_a = ht.HTMLDocument(root_a)
+        # (half of the documents carry attribute arguments - class / style / lang - which land on the <html> element)
+        dkw = {"class_": "dark", "style": "margin:0;", "lang": "de"} if (ctx.counters["oracle.document"] % 2) else {}
+        doc_a = ht.HTMLDocument(root_a, **dkw)
         da = doc_a.render()
-        db = ht.HTMLDocument(mk_b()).render()
+        db = ht.HTMLDocument(mk_b(), **dkw).render()
         ctx.count("oracle.document")
         ctx.state("document_roots", shape)
         if da["html"] != db["html"] or dep_vals(da["dependencies"]) != dep_vals(db["dependencies"]):
@@ -377,7 +379,7 @@ def _run(ctx):
             ctx.count("very_large_trees")
     # document roots that only exist after expansion (or that an empty expansion sits next to)
     body = gen.TAG("body", {"k": "text", "s": "bt;"}, {"k": "dep", "name": "da", "version": "1.0", "script": [{"src": "r.js"}]}, via_fn=False)
-    html = gen.TAG("html", gen.TAG("head", gen.TAG("title", {"k": "text", "s": "T"}), via_fn=False), body, via_fn=False)
+    html = gen.TAG("html", gen.TAG("head", gen.TAG("title", {"k": "text", "s": "T"}), via_fn=False), body, via_fn=False, attrs=[["class", {"t": "str", "s": "page"}], ["lang", {"t": "str", "s": "fr"}]])
     empty = {"k": "tf", "ret": "list", "c": []}
     roots = [[empty, body], [body, empty], [empty, html], [{"k": "tf", "ret": "list", "c": [body]}], [{"k": "tf", "ret": "one", "c": [body]}],
              [{"k": "tf", "ret": "one", "c": [html]}], [{"k": "tf", "ret": "list", "c": [html]}, empty], [empty, empty],
